@@ -225,3 +225,26 @@ fn c12_alarm_list() {
     }
     assert!(k == out.len());
 }
+
+/// quick-tier size of `c12_alarm_list`: three symbolic slots (first, second, last)
+#[kani::proof]
+#[kani::stub(crate::messages::rda_status_data::alarm::get_alarm_message, alarm_contract_stub)]
+#[kani::unwind(16)]
+fn c12_alarm_list_3() {
+    let mut m = blank();
+    let mut codes = [0u16; 14];
+    codes[0] = kani::any();
+    codes[1] = kani::any();
+    codes[13] = kani::any();
+    m.alarm_codes = codes;
+    let out = m.alarm_messages();
+    let mut k = 0usize;
+    for i in 0..14 {
+        if codes[i] != 0 && codes[i] <= 800 {
+            assert!(k < out.len());
+            assert!(out[k].code() == codes[i]);
+            k += 1;
+        }
+    }
+    assert!(k == out.len());
+}
